@@ -176,13 +176,13 @@ def replay_file(path):
 
 
 BOUNDS = {
-    "lex": "tokenizer vs an independent reading of the lexical rules: all concatenations of <= 3 lexemes from a 40-lexeme alphabet (symbols, words, digits, quotes, braces, whitespace, stray and non-ASCII characters) plus seeded random strings of 4-11 lexemes",
+    "lex": "tokenizer vs an independent reading of the lexical rules: all concatenations of <= 3 lexemes from a 44-lexeme alphabet (symbols, words, digits, quotes, braces, whitespace, NUL, stray and non-ASCII characters, long runs of multi-byte digits) plus seeded random strings of 4-11 lexemes",
     "index": "column index of every free variable and meaning preservation under orderings: 11 formulas x 20 orderings (permutations, subsets, supersets, gaps, duplicates, API vectors with descending / gapped ids, orderings that reverse a quantifier list) plus seeded random formula/ordering pairs (positional and shuffled explicit ids)",
     "formula": "tokenize -> parse -> free variables -> eval against an independent truth-table evaluator: corner-case list plus seeded random formulas of depth <= 3 over 4 names",
     "parse": "real parser vs an independent recursive-descent parser on real tokens: all token sequences of length <= 3 (4 in thorough) over 22 lexemes plus random and mutated sentences",
     "ops": "all pairs of the 256 functions over 3 variables (two index patterns, operands from the same and from a foreign environment) for the binary connectives; not; random triples for ite",
     "retain": "all 256 functions x 3 filters, plus call sequences sharing one environment",
-    "history": "seeded random sequences of 25 operations (connectives, quantifiers, counting, model, retain, clean) on a growing pool in ONE environment: each result must be structurally equal to what a fresh environment computes, every earlier result must keep its truth table, both leaves must stay available; plus the clean-with-only-a-constant-alive scenario, re-definitions between evaluations, a 40 000-node environment, and formulas whose names are numbered differently sharing one environment (table must not grow, results must be the same allocation)",
+    "history": "seeded random sequences of 25 operations (connectives, quantifiers, counting, model, retain, clean) on a growing pool in ONE environment: each result must be structurally equal to what a fresh environment computes, every earlier result must keep its truth table, both leaves must stay available; plus the clean-with-only-a-constant-alive scenario, re-definitions between evaluations, a 40 000-node environment, universal and existential quantification over the same variable back to back, and formulas whose names are numbered differently sharing one environment (table must not grow, results must be the same allocation)",
 }
 
 
